@@ -2,7 +2,10 @@
 
 package fit
 
-import "reflect"
+import (
+	"reflect"
+	"time"
+)
 
 // C18 — component fields expand per profile, with per-file accumulation.
 
@@ -30,6 +33,14 @@ func vSameExcept(a, b interface{}, id string, except ...string) {
 					vAssert(fa.Index(j).Interface() == fb.Index(j).Interface(), id)
 				}
 			}
+			continue
+		}
+		if ta, isT := fa.Interface().(time.Time); isT {
+			// same instant and same zone offset (zone objects are allocated per decode)
+			tb := fb.Interface().(time.Time)
+			_, oa := ta.Zone()
+			_, ob := tb.Zone()
+			vAssert(ta.Equal(tb) && oa == ob, id)
 			continue
 		}
 		vAssert(fa.Interface() == fb.Interface(), id)
